@@ -125,6 +125,16 @@ Theorem C20_in_scope_b_sound :
 Proof. exact in_scope_b_sound. Qed.
 Print Assumptions C20_in_scope_b_sound.
 
+(** [guard_F4n] is the evaluator's version of the C20-F4 guard, narrowed to where the defect
+    shows (no map at the list element in defaults and file, or two variables sharing element
+    and first name segment); the theorems' syntactic [guard_F4] implies it, so no load the
+    theorems speak about is excused.  For names of the F4 shape outside [guard_F4n] the
+    property is checked on every run (v_prop must hold, all orders), not proved. *)
+Theorem C20_guard_F4n_narrower :
+  forall d f ne, guard_F4 ne = false -> guard_F4n d f ne = false.
+Proof. exact guard_F4n_narrower. Qed.
+Print Assumptions C20_guard_F4n_narrower.
+
 (** the hypotheses of the theorems above are satisfiable by a load with
     defaults, a file with a list hole, an overriding variable, a variable that
     extends a list and one with a literal underscore *)
